@@ -139,10 +139,30 @@ def first_day_offset(ctx, fill, S):
     (forward: midnight(start), backward: midnight(end) - 1 day) is reported together with the step that produces it."""
     prog = ctx.prog
     rc = sched.reserve_calls(ctx, fill)
-    if len(rc) != 1:
+    if len(rc) > 1:
         return None
-    c = rc[0]
-    dvar = c.args[1] if len(c.args) > 1 else None
+    if rc:
+        c = rc[0]
+        dvar = c.args[1] if len(c.args) > 1 else None
+    else:
+        # the one-day booking step delegated to a helper: the helper's single reservation books the day it is handed
+        c = dvar = None
+        exf = Expander(prog, fill, ctx.typer, inline=False)
+        for call in [x for x in walk_no_nested(fill.node) if isinstance(x, ast.Call)]:
+            g = exf._single_target(call)
+            if g is None or g is fill or isinstance(g.node, ast.Lambda):
+                continue
+            grc = sched.reserve_calls(ctx, g)
+            if len(grc) == 1 and len(grc[0].args) > 1 and isinstance(grc[0].args[1], ast.Name) and grc[0].args[1].id in g.params and \
+                    not [d for d in flow_of(g).defs_of(grc[0].args[1].id) if d.kind != 'param']:
+                if c is not None:
+                    return None
+                ba = facts.bound_args(call, g)
+                names = [x for x in g.params if x != g.self_name] if g.kind in ('method', 'getter', 'setter') else list(g.params)
+                if grc[0].args[1].id in names and names.index(grc[0].args[1].id) < len(ba):
+                    c, dvar = call, ba[names.index(grc[0].args[1].id)]
+        if c is None:
+            return None
     if not isinstance(dvar, ast.Name):
         return None
     fl = flow_of(fill)
